@@ -636,8 +636,9 @@ func vC14RExec(t *testing.T, c *vCase) {
 //   scripted  an opening that arms ttls in a room, then a leave / switch / close / re-join pattern of every
 //             member, then sets of the same keys in the rooms the sessions are in now, then the old deadlines
 //             pass — followed by a random continuation
-//   random    PRNG histories over all ops but `rdel`
-//   deleted   the same with `rdel` (kept apart: the open finding C14-room-delete-keeps-listeners lives here)
+//   random    PRNG histories over all ops
+// The backend's room deletion (`rdel`) appears in every group: in the movement phase of the scripted openings
+// (a member "leaves" by the room being deleted under it) and in the random parts.
 
 var vC14RKeys = []string{"a", "b", "callstatus_1"}
 var vC14RWords = []string{"v0", "v1", "v2"}
@@ -795,7 +796,7 @@ func (g *vC14RGen) scripted(withDelete bool) {
 			}
 		}
 	}
-	if withDelete && r.chance(1, 2) {
+	if withDelete && r.chance(1, 6) {
 		g.add("rdel 1")
 	}
 	// … and is somewhere again
@@ -852,39 +853,29 @@ func vC14RoomsGen(e *vEnv, r *vRand) []vCase {
 		{"rjoin 2 1", fmt.Sprintf("rset 2 a v0 %d", short), "rclose 2", "rjoin 0 1", "rset 0 a v0 0", fmt.Sprintf("radv %d", short+5), "rget"},
 		// both leave, one after the other, both come back
 		{"rjoin 0 1", "rjoin 1 1", fmt.Sprintf("rset 1 a v0 %d", short), "rleave 0", "rleave 1", "rjoin 1 1", "rjoin 0 1", "rset 0 a v2 0", fmt.Sprintf("radv %d", short+5), "rget"},
+		// the backend deletes the room with a ttl pending; same room again; other room
+		{"rjoin 0 1", fmt.Sprintf("rset 0 a v0 %d", short), "rdel 1", "rjoin 0 1", "rset 0 a v0 0", fmt.Sprintf("radv %d", short+5), "rget"},
+		{"rjoin 0 1", "rjoin 1 1", fmt.Sprintf("rbset 1 a v0 %d", short), "rdel 1", "rjoin 1 2", "rset 1 a v1 0", fmt.Sprintf("radv %d", short+5), "rget"},
 		// not in a room / closed session / unknown room
 		{"rset 0 a v0 0", "rjoin 0 1", "rjoin 0 1", "rbset 2 a v0 0", "rclose 3", "rjoin 3 1", "rset 3 a v0 0", "rleave 1", "rget"},
 	}
 	for _, ops := range witness {
 		cases = append(cases, vCase{Ops: ops, Tags: []string{"rooms", "witness"}})
 	}
-	ns := e.scale(500, 4000)
+	ns := e.scale(550, 4300)
 	for i := 0; i < ns; i++ {
 		g := &vC14RGen{r: r.fork()}
-		g.scripted(false)
+		g.scripted(true)
 		cases = append(cases, vCase{Ops: g.ops, Tags: []string{"rooms", "scripted"}})
 	}
-	nr := e.scale(500, 4000)
+	nr := e.scale(550, 4300)
 	maxOps := e.scale(25, 60)
 	for i := 0; i < nr; i++ {
 		g := &vC14RGen{r: r.fork()}
-		g.random(6+g.r.intn(maxOps), false)
+		g.random(6+g.r.intn(maxOps), true)
 		g.add("radv %d", 2*vC14Long)
 		g.add("rget")
 		cases = append(cases, vCase{Ops: g.ops, Tags: []string{"rooms", "random"}})
-	}
-	// the backend deletes rooms (dedicated cases, at the end)
-	nd := e.scale(60, 600)
-	for i := 0; i < nd; i++ {
-		g := &vC14RGen{r: r.fork()}
-		if i%2 == 0 {
-			g.scripted(true)
-		} else {
-			g.random(6+g.r.intn(maxOps), true)
-			g.add("radv %d", 2*vC14Long)
-			g.add("rget")
-		}
-		cases = append(cases, vCase{Ops: g.ops, Tags: []string{"rooms", "deleted"}})
 	}
 	return cases
 }
